@@ -796,4 +796,47 @@ theorem preOk_unplaced {c c1 : Cell} {y : Nat} {ay : App} (hcap : InvCap c) (h :
     rw [← ih]
     exact preOk_unplaced_step (invCap_lreach hcap r) hp p (by rw [ih]; exact hay) hnone hgrp
 
+/-! ### partitions scheduled before the probe's -/
+
+/-- A loop over a queue that does not contain `y` leaves `y`'s whole record alone. -/
+theorem loop_untouched_eq {revq : List Nat} {qs : List (Nat × Bool)} {c c' : Cell} (hl : Loop revq qs c c')
+    {y : Nat} (hr : y ∉ revq) (hq : y ∉ qs.map (·.1)) : c'.app? y = c.app? y := by
+  induction hl with
+  | nil => rfl
+  | @cons q rest c c1 c2 a0 ha0 hchain _ _ ih =>
+    have hq' : y ∉ rest.map (·.1) := fun hm => hq (by simp [hm])
+    rw [ih hq']
+    have hya0 : y ≠ a0.id := by
+      rw [app?_id ha0]; intro e; exact hq (by simp [e])
+    have hyaf : y ∉ revq.takeWhile (· ≠ q.1) := fun hm => hr (List.takeWhile_subset _ hm)
+    exact entry_untouched hchain hya0 hyaf
+
+/-- Whole partitions processed without `y` in their queue leave the record of `y` alone (a record
+    that carries no eviction ghost: `evicted = dict()` is the only thing done to it). -/
+theorem cycle_untouched_eq {qss : List (List (Nat × Bool))} {c c' : Cell} (hcy : Cycle qss c c')
+    {y : Nat} {a : App} (hq : ∀ q ∈ qss, y ∉ q.map (·.1)) (ha : c.app? y = some a) (hev : a.evFrom = none) :
+    c'.app? y = some a := by
+  induction hcy with
+  | nil => exact ha
+  | @cons q qs c c1 c2 hl _ ih =>
+    apply ih (fun q' hq' => hq q' (List.mem_cons_of_mem _ hq'))
+    have hyq := hq q List.mem_cons_self
+    rw [loop_untouched_eq hl (by simpa using hyq) hyq]
+    have hlook : (clearGhost c).app? y = (c.app? y).map (fun a => { a with evFrom := none }) := by
+      unfold Cell.app? clearGhost
+      exact find?_map_id c.apps (fun a : App => { a with evFrom := none }) (fun _ => rfl) y
+    rw [hlook, ha]
+    simp only [Option.map_some, Option.some.injEq]
+    cases a; simp_all
+
+theorem clean_of_not_moved {c0 c : Cell} (h : ∀ y, ¬ MovedTo c0 c y) : Clean c0 c := by
+  intro y b0 b hb0 hb
+  cases hs : b.server with
+  | none => exact Or.inr rfl
+  | some t =>
+    left
+    by_cases e : b0.server = some t
+    · exact e.symm
+    · exact absurd ⟨b0, b, t, hb0, hb, hs, e⟩ (h y)
+
 end TmVerif.Sched
